@@ -21,6 +21,9 @@ use emmylua_code_analysis::{
     uri_to_file_path,
 };
 use lsp_types::InitializeParams;
+#[cfg(feature = "verif")]
+use crate::verif_locks::RwLock;
+#[cfg(not(feature = "verif"))]
 use tokio::sync::RwLock;
 
 pub async fn initialized_handler(
